@@ -332,6 +332,7 @@ var c01ProductionOptimizerExprs = []string{"(fallback copy)"}
         elif self.proof_failures:
             self.say("PROOF-BROKEN (failing input found by correspondence):", "; ".join(self.proof_failures)[:1500])
         for key, what in self.known_hits:
+            what = re.sub(r"^open:\s*property=\S+\s*", "", what)
             self.say(f"KNOWN-FINDING: property={self.prop} {what}")
         n_obl = len(self.obligations)
         n_dis = len([o for o in self.obligations if o[2]]) if not any(
